@@ -14,6 +14,7 @@ import (
 	"github.com/postalsys/muti-metroo/internal/exit"
 	"github.com/postalsys/muti-metroo/internal/identity"
 	"github.com/postalsys/muti-metroo/internal/protocol"
+	"github.com/postalsys/muti-metroo/internal/udp"
 )
 
 // Engine c16 (also registered as c17r): the real relayTable (ops t.*) and the real agent's
@@ -140,7 +141,17 @@ func (w *c16World) agentOutX(x *c16Exit, extra []string) string {
 		keys = append(keys, fmt.Sprintf("%d:%d", k, x.serialOf(exit.C17Record(x.h, k))))
 	}
 	return "sent=[" + strings.Join(parts, " ") + "] x=[" + strings.Join(extra, " ") + "] | tcp " + c16ShowTable(tcp) + " | udp " + c16ShowTable(udp) +
-		" | icmp " + c16ShowTable(icmp) + " | exit=[" + strings.Join(keys, " ") + "]"
+		" | icmp " + c16ShowTable(icmp) + " | exit=[" + strings.Join(keys, " ") + "] uexit=[" + strings.Join(c16UKeys(w), " ") + "]"
+}
+
+func c16UKeys(w *c16World) []string {
+	var out []string
+	if h := agent.C16UDPHandler(w.a); h != nil {
+		for _, k := range udp.C16AssocKeys(h) {
+			out = append(out, fmt.Sprint(k))
+		}
+	}
+	return out
 }
 
 func c16OpenPayload(kind string, reqID uint64, next int) []byte {
@@ -180,12 +191,28 @@ func init() {
 			x.relayedAckErr = f[0] == "ack" || f[0] == "err"
 			switch f[0] {
 			case "reset":
+				if h := agent.C16UDPHandler(w.a); h != nil {
+					for _, k := range udp.C16AssocKeys(h) {
+						h.HandleUDPClose(c16ID(0), k)
+					}
+				}
 				x.reset()
 				w.resetPeers()
 				agent.C16ResetTables(w.a)
 				t = agent.C16NewTable()
 				return "ok"
 			case "end":
+				return w.agentOutX(x, nil)
+			case "uxopen": // UDP_OPEN with an empty path: this agent is the UDP exit (socket bound synchronously)
+				p, id := c16Atoi(f[1]), c16U64(f[2])
+				if w.conns[p] == nil {
+					return w.agentOutX(x, nil)
+				}
+				_, pub, err := crypto.GenerateEphemeralKeypair()
+				must(err)
+				reqID++
+				open := &protocol.UDPOpen{RequestID: reqID, AddressType: protocol.AddrTypeIPv4, Address: []byte{0, 0, 0, 0}, TTL: 8, EphemeralPubKey: pub}
+				agent.C16Process(w.a, c16ID(p), &protocol.Frame{Type: protocol.FrameUDPOpen, StreamID: id, Payload: open.Encode()})
 				return w.agentOutX(x, nil)
 			case "xopen": // STREAM_OPEN with an empty path: this agent is the exit
 				p, id := c16Atoi(f[1]), c16U64(f[2])
@@ -376,6 +403,34 @@ func c16Gen(w *bufio.Writer, seed int64, tier string) {
 			}
 		}
 	}
+	// fixed layouts (independent of the seed): this agent is UDP exit for peer 1 (association id N) and UDP
+	// transit for peer 2 -> 4 (upstream id N as well, or downstream id N); closes from either side in
+	// either order; the relay tables must be empty at `end`. Same for TCP exit + transit.
+	for _, n := range []uint64{1, 3} {
+		for order := 0; order < 4; order++ {
+			fmt.Fprintf(w, "reset\nconn 1 a\nconn 2 a\nconn 4 d\n")
+			if order%2 == 0 {
+				fmt.Fprintf(w, "uxopen 1 %d\nopen udp 2 %d 4\n", n, n)
+			} else {
+				fmt.Fprintf(w, "open udp 2 %d 4\nuxopen 1 %d\n", n, n)
+			}
+			fmt.Fprintf(w, "data udp 2 %d aa 0\n", n)
+			switch order / 2 {
+			case 0: // the relayed association closes first (from upstream), then the exit association
+				fmt.Fprintf(w, "close udp 2 %d\nclose udp 1 %d\n", n, n)
+			default: // the exit association's owner closes first, then the relayed one (from downstream)
+				fmt.Fprintf(w, "close udp 1 %d\nclose udp 4 1\nclose udp 2 %d\n", n, n)
+			}
+			fmt.Fprintf(w, "end\n")
+			fmt.Fprintf(w, "reset\nconn 1 a\nconn 2 a\nconn 4 d\nxopen 1 %d\nopen tcp 2 %d 4\ndata tcp 2 %d bb 0\nxdata 1 %d 0\n", n, n, n, n)
+			if order%2 == 0 {
+				fmt.Fprintf(w, "close tcp 2 %d\nxdata 1 %d 0\nclose tcp 1 %d\n", n, n, n)
+			} else {
+				fmt.Fprintf(w, "close tcp 1 %d\ndata tcp 2 %d cc 1\nclose tcp 4 1\n", n, n)
+			}
+			fmt.Fprintf(w, "end\n")
+		}
+	}
 	kinds := []string{"tcp", "tcp", "tcp", "udp", "icmp"}
 	for c := 0; c < nA; c++ {
 		fmt.Fprintf(w, "reset\n")
@@ -421,6 +476,7 @@ func c16Gen(w *bufio.Writer, seed int64, tier string) {
 			serial int
 		}
 		var xts []xt
+		var uxs [][2]uint64
 		var globalUp uint64 = 1
 		for k := 0; k < nOps; k++ {
 			switch x := r.intn(100); {
@@ -446,6 +502,11 @@ func c16Gen(w *bufio.Writer, seed int64, tier string) {
 					}
 					sid = nextUp[p]
 					nextUp[p] += 2
+				}
+				if r.chance(30) { // an exit-side UDP association instead
+					fmt.Fprintf(w, "uxopen %d %d\n", p, sid)
+					uxs = append(uxs, [2]uint64{uint64(p), sid})
+					break
 				}
 				xts = append(xts, xt{p, sid, len(xts)})
 				fmt.Fprintf(w, "xopen %d %d\n", p, sid)
@@ -556,6 +617,11 @@ func c16Gen(w *bufio.Writer, seed int64, tier string) {
 			fmt.Fprintf(w, "close %s %d %d\n", t.kind, t.up, t.upID)
 			if r.chance(20) {
 				fmt.Fprintf(w, "close %s %d %d\n", t.kind, t.up, t.upID)
+			}
+		}
+		for _, u := range uxs {
+			if from(int(u[0])) {
+				fmt.Fprintf(w, "close udp %d %d\n", u[0], u[1])
 			}
 		}
 		for _, t := range xts {
